@@ -365,6 +365,45 @@ def run(prog: Program, chk: Check):
             if isinstance(c_.func, ast.Name) and c_.func.id in ("MessageHeader", "TimeCodeMessageHeader"):
                 H.bad(fkey(f_, c_), where(f_, c_), f"{f_.qual} builds a header of a fixed class: {norm(c_)[:50]}")
 
+    # ---- C05-Q between two recipients of one message nothing else is published (except the failure notices) ---------------------
+    # A log record is republished by the manager's logger through forward_message: emitted inside the recipient loop on the
+    # success path it reaches the recipients served earlier *after* the message and those served later *before* it - two
+    # receivers disagree on the order of two messages they both get.
+    Q = chk.rule("C05-Q", "inside the recipient loop of forward_message only failure handling (handlers, the drop branch) may publish", 1,
+                 "a publication on the success path interleaves another message into the fan-out: receivers see the two in different orders")
+    fwd = mm_cls.methods["forward_message"]
+    from ..program import ancestors as _anc5
+    cg5 = callgraph.get(prog)
+    loops5 = [lp for lp in walk_local(fwd.node) if isinstance(lp, ast.For) and any(is_method_call(c, "send_message") for c in calls_in(lp))]
+    if not loops5:
+        raise AnalysisError("anchor vanished: recipient loop of forward_message")
+    npub = 0
+    for (cnode, st_, fi, desc) in cg5.calls.get(fwd.key, []):
+        if fi is None or not (fi.key == fwd.key or fwd.key in cg5.may_call(fi)):
+            continue
+        if not any(any(a is lp for a in _anc5(cnode)) for lp in loops5):
+            continue
+        npub += 1
+        in_handler = any(isinstance(a, ast.ExceptHandler) for a in _anc5(cnode))
+        # success path: in the same iteration a write to the recipient completes before or after the publication (normal edges only,
+        # not across the loop head); the drop branch writes to nobody, a handler is reached through an exception edge
+        g5 = C.build(fwd.node)
+        pn = [n for n in g5.nodes if any(c is cnode for c in node_calls(n))]
+        heads = {n.id for n in g5.nodes if n.kind == "for"}
+        sn = {n.id for n in g5.nodes if any(is_method_call(c, "send_message") and path_of(recv_of(c)) != "self" for c in node_calls(n))}
+        norm_edge = lambda e: e.kind not in ("exc", "except") and e.src not in heads
+        after_send = flow.reach(g5, [e.dst for s_ in sn for e in g5.succ[s_] if e.kind not in ("exc", "except")], follow=norm_edge)
+        before_send = set()
+        for p_ in pn:
+            if flow.reach(g5, [e.dst for e in g5.succ[p_.id] if e.kind not in ("exc", "except")], follow=norm_edge) & sn:
+                before_send.add(p_.id)
+        sends_here = any(p_.id in after_send or p_.id in before_send for p_ in pn)
+        Q.decide(in_handler or not sends_here, fkey(fwd, f"publish:{norm(cnode)[:50]}"), where(fwd, cnode), "publication belongs to failure handling (handler / drop branch)",
+                 f"forward_message: `{norm(cnode)[:70]}` publishes" + (" (log record -> manager logger -> forward_message)" if "emit" in (desc or "") else "")
+                 + " on the success path of the recipient loop: recipients served before and after this one receive the two messages in different orders")
+    if npub < 2:
+        raise AnalysisError(f"anchor vanished: publications inside the recipient loop (found {npub})")
+
     # ---- C05-P a failed write never leaves the connection open -------------------------------------------------------
     P = chk.rule("C05-P", "every exception handler around a send to a module removes that module (whatever the exception class)", 3,
                  "sendall may have written part of a frame and the sequence counter is already incremented: keeping the connection open leaves a torn frame / a gap in its stream")
